@@ -157,6 +157,46 @@ def _check_ctor(mode):
     return True, "ok"
 
 
+def _bind_map_cases():
+    choices = ["absent", "small", "big", "other", "self+other", "other/2", "imag"]
+    for t in range(3):
+        k = 2 if t < 2 else 3
+        for combo in itertools.product(choices, repeat=k):
+            yield (t, combo)
+
+
+def _check_bind_map(case):
+    """symbolic states whose numeric entries already carry norm 0.5: binding any mixture of numbers (small / too large), other symbols and expressions
+    that re-introduce a bound symbol either raises and leaves the receiver as it was, or returns a state whose numeric entries do not exceed norm 1"""
+    import sympy
+    from orquestra.quantum.wavefunction import Wavefunction
+    t, combo = case
+    a, b, c = sympy.symbols("a b c")
+    syms = [a, b, c][:len(combo)]
+    vec = [[a, b, 0.5, 0.5], [0.5, a + b, sympy.I / 2, b], [a, 0.5, b, c, 0.5, 0, 0, a / 2]][t]
+    mp = {}
+    for i, (s_, ch) in enumerate(zip(syms, combo)):
+        o = syms[(i + 1) % len(syms)]
+        if ch != "absent":
+            mp[s_] = {"small": 0.1, "big": 0.9, "other": o, "self+other": s_ + o, "other/2": o / 2, "imag": 0.75j}[ch]
+    w = Wavefunction(list(vec))
+    before = [w.amplitudes[i] for i in range(len(vec))]
+    try:
+        res = w.bind(dict(mp))
+    except ValueError:
+        res = None
+    if [w.amplitudes[i] for i in range(len(vec))] != before:
+        return False, f"bind({mp}) changed the receiver {before}"
+    if res is None:
+        return True, "rejected"
+    ents = [sympy.sympify(x) for x in (list(res.amplitudes) if not hasattr(res.amplitudes, "reshape") else res.amplitudes.reshape(-1).tolist())]
+    tot = sum(abs(complex(sympy.N(e))) ** 2 for e in ents if not e.free_symbols)
+    full = all(not e.free_symbols for e in ents)
+    if tot > 1 + 1e-6 or (full and abs(tot - 1) > 1e-6):
+        return False, f"Wavefunction({vec}).bind({mp}) returned {ents}: numeric entries of total probability {tot:.4f}"
+    return True, "ok"
+
+
 def _check_history(case):
     """adversarial histories: after every step the object must still be a valid wavefunction (its own amplitudes are
     accepted by the constructor) and a rejected step must leave it exactly unchanged"""
@@ -325,6 +365,9 @@ def build(tier, seed):
     obs.append(vprop.enum_ob("C12.history.enum", [C_SET.key, W + ":Wavefunction.bind"], _histories(tier), _check_history,
                              "bounded: adversarial assignment / binding histories (tolerance-sized drifts, rejected then accepted writes, numeric / symbolic / mixed): "
                              "the object stays valid for its own constructor, rejected steps change nothing", exhaustive=False))
+    obs.append(vprop.enum_ob("C12.bind_maps.enum", [W + ":Wavefunction.bind", W + ":Wavefunction._check_normalization", W + ":_is_number"], _bind_map_cases, _check_bind_map,
+                             "bounded: three symbolic states with numeric norm 0.5 x every assignment of {absent, 0.1, 0.9, 0.75j, another symbol, self + another, another / 2} to each of their 2..3 symbols: "
+                             "the bound state is valid or the call raises; the receiver never changes"))
     obs.append(vprop.enum_ob("C12.dicke.enum", [W + ":Wavefunction.dicke_state", W + ":_most_significant_set_bit"], lambda: range(1, 17 if tier == "quick" else 21), _check_dicke,
                              "bounded: dicke_state(n,k) has equal probability on exactly the C(n,k) states of weight k; bad arguments raise"))
     obs.append(vprop.enum_ob("C12.flip.enum", [W + ":flip_amplitudes", W + ":_get_ordering", W + ":save_wavefunction", W + ":load_wavefunction"],
